@@ -10,7 +10,7 @@ import collections
 
 from hypothesis import strategies as st
 
-from vlib import gen_maps, pipeline
+from vlib import scale, gen_maps, pipeline
 from vlib.core import Sub, req, sut
 
 PROPERTY = "C05"
@@ -140,6 +140,23 @@ def check(case):
     return {"nontrivial": nt, "classes": sorted(set(cl))}
 
 
+def check_many(case):
+    """hundreds of queries in one 'best'-mode run: exactly one record per query that has any alignment, ascending ids; a
+    query that gets a record when it is run alone gets one in the full run"""
+    full = pipeline.run_case(case, mode="best", record=False)
+    if full.crashed:
+        return {"nontrivial": False, "classes": ["pipeline-crash:" + full.crash_signature]}
+    ids = [int(r["QryContigID"]) for r in full.files["main"]]
+    dup = [q for q, c in collections.Counter(ids).items() if c > 1]
+    req(not dup, "two-records-for-one-query", f"'best' mode, {len(case['queries'])} queries: queries {dup[:5]} have more than one record")
+    req(all(a < b for a, b in zip(ids, ids[1:])), "best-mode-not-ascending", f"'best' mode records not in ascending query id around {[(a, b) for a, b in zip(ids, ids[1:]) if a >= b][:3]}")
+    alone = pipeline.run_case(dict(case, queries=[q for q in case["queries"] if q["id"] in case["select"]]), mode="best", record=False)
+    if not alone.crashed:
+        have = {int(r["QryContigID"]) for r in alone.files["main"]}
+        req(have <= set(ids), "best-mode-query-set", f"queries {sorted(have - set(ids))} have an alignment (reported when run without the other {len(case['queries']) - len(case['select'])} queries) but no record in the full run")
+    return {"nontrivial": len(ids) >= 257, "classes": [f"records>={256 if len(ids) > 256 else 0}"]}
+
+
 @st.composite
 def strategy(draw):
     case = draw(gen_maps.pipeline_case(flank_repeat=2, modes=["joined", "all", "best"], max_queries=8, min_queries=2,
@@ -153,4 +170,6 @@ def strategy(draw):
 def subchecks(tier):
     q = tier == "quick"
     return [Sub("selection", "hyp", check, strategy=strategy, examples=480 if q else 12000, shrink_budget=60,
-                sample_filter=gen_maps.short_case, required_classes=("candidates-differ", "more-peaks-than-count", "best-multi"))]
+                sample_filter=gen_maps.short_case, required_classes=("candidates-differ", "more-peaks-than-count", "best-multi")),
+            Sub("many-queries", "hyp", check_many, strategy=scale.many_queries_case, examples=2 if q else 48, shrink_budget=0, shards=2 if q else 16,
+                sample_filter=scale.short, describe="257-385 query molecules in one 'best'-mode run")]
